@@ -377,6 +377,8 @@ var cliTexts = []string{"50% off %d %s %v %%", "100%", "a\\nb\\t\\x41", "$HOME $
 
 func genCLISession(r *rand.Rand, i int) J {
 	env := []any{[]any{bs("S"), vStr(pick(r, append([]string{"a", "x y", "é", ""}, cliTexts...)))}, []any{bs("T"), vStr(pick(r, append([]string{"b", "10", " p "}, cliTexts...)))}}
+	// (a value with equals signs in it: the part of NAME=VALUE after the first one is the value, whole)
+	env = append(env, []any{bs("E"), vStr([]string{"aGVsbG8gd29ybGQ=", "k=v&x=y", "==", "a=b=c", "=lead", "trail="}[i%6])})
 	long := strings.Repeat(pick(r, cliTexts)+" ", 3000) // more than a pipe buffer holds
 	templates := []any{
 		[]any{nObj(eVar("S")), nText("-"), nObj(eFilter(eVar("T"), "upcase")), nText("\n")},
@@ -387,6 +389,7 @@ func genCLISession(r *rand.Rand, i int) J {
 		[]any{nText(long), nObj(eVar("T"))},
 		[]any{J{"t": "raw", "s": bs(pick(r, cliTexts))}, nText(pick(r, cliTexts))},
 		[]any{nText("["), nObj(eVar("nosuchvariable")), nText("]")},
+		[]any{nText("<"), nObj(eVar("E")), nText(">"), nObj(eFilter(eVar("E"), "size"))},
 	}
 	ops := []any{}
 	for k := 0; k < 2*len(templates)+2; k++ {
